@@ -14,13 +14,78 @@ from vf.props.c04 import same_form, trivial
 
 
 def setup_symbolic():
-    from vf import npshim
-    npshim.install()
+    pipeline.setup_symbolic()       # shim + solver stand-ins (the solve-time cases run PEP.solve under the contract stub)
+
+
+def setup_concrete():
+    pipeline.setup_concrete()
+
+
+def prog_solve(env, case):
+    """what PEP.solve hands to the solver for a model with a partition: the rows are the model's other rows plus exactly
+    the cross-block orthogonality relations of the decomposed points (expectation built here from the blocks, not from
+    the partition's own constraint list)"""
+    from vf import sdp
+    from vf.props import c05
+    from vf.solverstub import CvxStub, MosekStub
+    from PEPit import Expression
+    from PEPit.block_partition import BlockPartition
+    backend = case['backend']
+    d = case['d']
+    tag = "C15:solve:%s:d%d%s" % (backend, d, ":constructor" if case.get('direct') else "")
+    spec = dict(fclass='ssc', steps=['grad'], cons=[], lmis=[], metrics=1, partition=d, backend=backend,
+                partition_direct=bool(case.get('direct')))
+    if env.sym:
+        CvxStub(env).install()
+        MosekStub(env).install()
+    elif backend == 'mosek':
+        pipeline.enable_mosek_emulator()
+    m = pipeline.build(env, spec)
+    tau, err = pipeline.safe_solve(env, m.pep, tag, wrapper=backend, verbose=0)
+    if err:
+        return err
+    w = m.pep.wrapper
+    if backend == 'mosek':
+        rec = sdp.rows_from_mosek(w.task, Expression.counter)
+    elif env.sym:
+        rec = sdp.rows_from_cvxpy(w, w.prob)
+    else:
+        rec = c05.rows_from_real_cvxpy(w)
+    parts = [m.partition] + ([m.partition2] if getattr(m, 'partition2', None) is not None else [])
+    # the model's other rows (class constraints, initial condition, metric): C05's expectation without the partitions
+    registry = BlockPartition.list_of_partitions
+    BlockPartition.list_of_partitions = []
+    try:
+        other, lmis = c05.declared(m)
+    finally:
+        BlockPartition.list_of_partitions = registry
+    expected = []
+    for part in parts:
+        items = [(x, k) for x in part.blocks_dict for k in range(part.d)]
+        for (x, k), (y, l) in itertools.combinations_with_replacement(items, 2):
+            if k == l or (x is y and k > l):
+                continue
+            f = dict(canon(part.blocks_dict[x][k] * part.blocks_dict[y][l]))
+            c0 = f.pop('c', 0)
+            if trivial(env, f):
+                continue
+            expected.append(dict(kind='eq', form=f, const=c0, src='orthogonality', sign_free=True))
+    env.check(len(expected) > 0 or d == 1, "harness: the model decomposes no point", signature=tag + ":harness")
+    missing, extra = sdp.match_rows(env, other + expected, rec['rows'])
+    miss_o = [r for r in missing if r.get('src') == 'orthogonality']
+    env.check(not miss_o, "%d of %d cross-block orthogonality relation(s) of decomposed points are not handed to the solver "
+              "at solve time, e.g. %s" % (len(miss_o), len(expected), [sdp.describe(r) for r in miss_o[:2]]),
+              signature=tag + ":orthogonality-not-sent")
+    env.check(not extra, "the solver received %d row(s) beyond the model's constraints and the cross-block orthogonality "
+              "relations, e.g. %s" % (len(extra), [sdp.describe(r) for r in extra[:2]]), signature=tag + ":extra-rows")
+    return "solve d=%d: %d orthogonality rows" % (d, len(expected))
 
 
 def prog(env, case):
     if case.get('kind') == 'temporaries':
         return prog_temporaries(env, case)
+    if case.get('kind') == 'solve':
+        return prog_solve(env, case)
     from PEPit import PEP, Point
     from PEPit.block_partition import BlockPartition
     d = case['d']
@@ -212,6 +277,11 @@ def prog_temporaries(env, case):
 
 def cases(tier):
     cs = [dict(id="temporaries-d2", d=2, kind='temporaries'), dict(id="temporaries-d3", d=3, kind='temporaries')]
+    for be in ('cvxpy', 'mosek'):
+        for d in ((2,) if tier == 'quick' else (1, 2, 3)):
+            for direct in (False, True):
+                cs.append(dict(id="solve-%s-d%d%s" % (be, d, "-constructor" if direct else ""), kind='solve', backend=be, d=d,
+                               direct=direct, input_zero_tests='generic', output_branches='first'))
     for d in ((1, 2, 3) if tier == 'quick' else (1, 2, 3, 4)):
         npts = {1: 3, 2: 3, 3: 2, 4: 2}[d] if tier == 'quick' else {1: 4, 2: 4, 3: 3, 4: 2}[d]
         for first in range(5):
@@ -232,7 +302,9 @@ def main(tier, only=None):
     return runner.run_property(
         "C15", tier, "vf.props.c15", cs, opts=dict(mode='reexec', max_paths=1000000),
         assumptions=["block-smooth class constraints vs the per-block reference and on separable real members are decided "
-                     "in C04 / C03 (class key 'blocksmooth'); what reaches the solver at solve time in C05 / C13"],
+                     "in C04 / C03 (class key 'blocksmooth')",
+                     "solve-time cases: PEP.solve runs under the solver contract stub on a block-smooth gradient-step model "
+                     "(partition declared through the PEP or built with the public constructor); repeated solves in C13"],
         bounds=dict(blocks="d <= 3 (4 thorough)", get_block_requests="3 (d<=2), 2 (d=3)" if tier == 'quick' else "4 (d<=2), 3 (d=3), 2 (d=4)", coordinates="n = d + 1",
                     outside="more blocks / requests; two distinct Point objects with equal decomposition receive distinct "
                             "blocks (not required to coincide by the property as read here)"))
